@@ -110,7 +110,7 @@ pub fn fix_ops(a: &[B], b: &[B], ops: &[Op]) -> Vec<Op> {
 
 pub const DIR_NAMES: &[&str] = &["src", "lib", "doc", "include", "d", "kernel"];
 pub const FILE_NAMES: &[&str] = &["f.c", "main.rs", "Makefile", "README", "t.txt", "x.h", "noext", "a.b.c", "conf.in", "z"];
-pub const NASTY_NAMES: &[&str] = &["w s.txt", "tab\there", "uml\u{e4}ut.c", "q\"uote", "back\\slash", "sp ace/f"];
+pub const NASTY_NAMES: &[&str] = &["w s.txt", "tab\there", "uml\u{e4}ut.c", "q\"uote", "back\\slash", "sp ace/f", "gar\u{e7}on.c", "stra\u{df}e.h", "bell\u{7}.txt"];
 
 #[derive(Clone, Copy, Debug, PartialEq, Serialize, Deserialize)]
 pub enum HeaderKind {
